@@ -84,6 +84,32 @@ func (p *Prog) GoEntries() []*GoEntry {
 				}
 			}
 		}
+		if e.Recv == nil && e.Entry != nil && p.IsProduct(e.Entry) && e.Entry.Parent() == nil {
+			// a plain function that is not handed the discipline itself (handler(inner, handle)): it
+			// belongs to the discipline whose method or constructor starts it
+			encl := g.Parent()
+			for encl != nil && encl.Parent() != nil {
+				encl = encl.Parent()
+			}
+			if encl != nil {
+				if recv := encl.Signature.Recv(); recv != nil {
+					if nt := namedOrigin(recv.Type()); nt != nil {
+						if _, isStruct := nt.Underlying().(*types.Struct); isStruct && nt.Obj().Pkg() == e.Entry.Pkg.Pkg {
+							e.Recv = nt
+						}
+					}
+				} else {
+					res := encl.Signature.Results()
+					for i := 0; i < res.Len() && e.Recv == nil; i++ {
+						if nt := namedOrigin(res.At(i).Type()); nt != nil {
+							if _, isStruct := nt.Underlying().(*types.Struct); isStruct && nt.Obj().Pkg() == e.Entry.Pkg.Pkg {
+								e.Recv = nt
+							}
+						}
+					}
+				}
+			}
+		}
 		out = append(out, e)
 	}
 	for _, e := range out {
